@@ -31,6 +31,7 @@ def required(tier):
         "nontrivial": 3000 if tier == "quick" else 30000,
         "glr.forests_compared": 5000,
         "glr.ld_on.forests_compared": 1500,
+        "glr.precomputed_table.forests_compared": 1500,
         "glr.rejections_agree": 3000,
         "glr.multi_prefix_inputs": 1000,
         "lr.trees_judged": 2000,
@@ -74,6 +75,8 @@ def one_grammar(ctx, gmon, g, alphabet, maxlen):
         with pgx.watchdog(30):
             pg = pgx.grammar(text)
             parsers = [("GLR", pgx.glr(pg, consume_input=False))]
+            # a parser given the precomputed table keeps the GLR defaults (no lexical disambiguation)
+            parsers.append(("GLR-table", pgx.glr(pg, table=parsers[0][1].table, consume_input=False)))
             # the documented pass-through callback must change nothing
             parsers.append(("GLR-ctr", pgx.glr(pgx.grammar(text), consume_input=False, custom_token_recognition=lambda head, get_tokens: get_tokens())))
             if not overlap:
@@ -204,6 +207,8 @@ def check(ctx, gmon, g, pkeys, parser, name, case, inp, ends, ref, chart):
             return
     if name == "GLR-ld":
         ctx.count("glr.ld_on.forests_compared")
+    if name == "GLR-table":
+        ctx.count("glr.precomputed_table.forests_compared")
     if len(ends) >= 2:
         ctx.count("glr.multi_prefix_inputs")
     got = set(forms)
@@ -264,6 +269,8 @@ def replay(case, ctx):
         name = case["parser"]
         if name == "GLR":
             parser = pgx.glr(pg, consume_input=False)
+        elif name == "GLR-table":
+            parser = pgx.glr(pg, table=pgx.glr(pg, consume_input=False).table, consume_input=False)
         elif name == "GLR-ctr":
             parser = pgx.glr(pg, consume_input=False, custom_token_recognition=lambda head, get_tokens: get_tokens())
         elif name == "GLR-ld":
